@@ -29,11 +29,14 @@ import (
 	"net/url"
 	"os"
 	"runtime"
+	"runtime/debug"
 	"sort"
 	"strconv"
 	"strings"
 	"sync"
 	"sync/atomic"
+	"syscall"
+	"time"
 
 	"github.com/google/martian/v3"
 	_ "github.com/google/martian/v3/cookie"
@@ -161,6 +164,9 @@ var (
 	alphaMid = &alphabet{name: "mid", scopes: s3, probeSc: s3, errSc: []int{scAbsent}, extra: []int{kMarkH},
 		filters: []int{fHeader, fURL}, aggs: []bool{false, true}, prios: []int{0, 1},
 		describe: "mid: scopes {absent,[request],[response]} on probe, fifo (aggregateErrors false/true), priority ({0,1}), header and url filters (modifier, modifier+else); erroring leaf and X-Cond mark without scope"}
+	alphaTiny = &alphabet{name: "tiny", scopes: []int{scAbsent}, probeSc: s2, errSc: []int{scAbsent}, extra: nil,
+		filters: []int{fHeader}, aggs: []bool{false, true}, prios: []int{0, 1},
+		describe: "tiny: fifo (aggregateErrors false/true), priority ({0,1}), header filter (modifier, modifier+else), erroring leaf, all without scope; probe with scope {absent,[response]}"}
 	alphaSmall = &alphabet{name: "small", scopes: s2, probeSc: []int{scAbsent}, errSc: []int{scAbsent}, extra: nil,
 		filters: []int{fHeader}, aggs: []bool{false, true}, prios: []int{0, 1},
 		describe: "small: scopes {absent,[response]} on fifo (aggregateErrors false/true), priority ({0,1}), header filter (modifier, modifier+else); probe and erroring leaf without scope"}
@@ -672,6 +678,10 @@ func diff(exp, obs outcome) string {
 	return ""
 }
 
+func sameOutcome(a, b outcome) bool {
+	return eqInts(a.Trace, b.Trace) && eqInts(a.Errs, b.Errs) && a.Yes == b.Yes && a.Path == b.Path && a.Status == b.Status && a.Extra == b.Extra
+}
+
 func eqInts(a, b []int) bool {
 	if len(a) != len(b) {
 		return false
@@ -959,14 +969,46 @@ func candidates(t *node) []*node {
 		if x.Agg {
 			edit(pos, func(y, _ *node, _ int) *node { y.Agg = false; return y })
 		}
+		anyPrio := false
 		for i, p := range x.Prio {
 			if p != 0 {
 				i := i
+				anyPrio = true
 				edit(pos, func(y, _ *node, _ int) *node { y.Prio[i] = 0; return y })
 			}
 		}
+		if anyPrio {
+			edit(pos, func(y, _ *node, _ int) *node {
+				for i := range y.Prio {
+					y.Prio[i] = 0
+				}
+				return y
+			})
+		}
 	}
 	return out
+}
+
+// failingOn looks for a message of the given kind (every truth assignment of the conditions occurring in t, fewest
+// true conditions first) on which t fails with a symptom of the same class as sym.
+func failingOn(t *node, kind int, sym string, calls *int64) (string, msg, bool) {
+	number(t, 0)
+	r, err, pan := safeParse(render(t, mutation{}))
+	if pan != "" {
+		return "parse_panic", msg{Kind: kind}, sameClass("parse_panic", sym)
+	}
+	if err != nil {
+		return "rejected_valid", msg{Kind: kind}, sameClass("rejected_valid", sym)
+	}
+	for _, m := range msgsFor[filterMask(t)] {
+		if m.Kind != kind {
+			continue
+		}
+		if s := diff(expect(t, m), observe(r.RequestModifier(), r.ResponseModifier(), m, calls)); s != "" && sameClass(s, sym) {
+			return s, m, true
+		}
+	}
+	return "", msg{}, false
 }
 
 func minimise(t *node, m msg, sym string, calls *int64) (*node, msg, string) {
@@ -974,24 +1016,14 @@ func minimise(t *node, m msg, sym string, calls *int64) (*node, msg, string) {
 	for progress := true; progress; {
 		progress = false
 		for _, c := range candidates(t) {
-			if s, _, _ := failure(c, m, calls); s != "" && sameClass(s, sym) {
-				t, sym, progress = c, s, true
+			if s, m2, ok := failingOn(c, m.Kind, sym, calls); ok {
+				t, m, sym, progress = c, m2, s, true
 				break
 			}
 		}
-		if progress {
-			continue
-		}
-		for i := range m.Cond {
-			if m.Cond[i] {
-				m2 := m
-				m2.Cond[i] = false
-				if s, _, _ := failure(t, m2, calls); s != "" && sameClass(s, sym) {
-					m, sym, progress = m2, s, true
-					break
-				}
-			}
-		}
+	}
+	if s, m2, ok := failingOn(t, m.Kind, sym, calls); ok {
+		m, sym = m2, s
 	}
 	number(t, 0)
 	return t, m, sym
@@ -1120,12 +1152,16 @@ func (w *handlerWorker) post(doc []byte) (code int, pan string) {
 	return rw.Code, ""
 }
 
-func (w *handlerWorker) get() string {
+func (w *handlerWorker) getRaw() []byte {
 	rw := httptest.NewRecorder()
 	w.mod.ServeHTTP(rw, httptest.NewRequest("GET", "http://martian.proxy/configure", nil))
+	return rw.Body.Bytes()
+}
+
+func compact(raw []byte) string {
 	var b bytes.Buffer
-	if err := json.Compact(&b, rw.Body.Bytes()); err != nil {
-		return "not JSON: " + rw.Body.String()
+	if err := json.Compact(&b, raw); err != nil {
+		return "not JSON: " + string(raw)
 	}
 	return b.String()
 }
@@ -1210,19 +1246,26 @@ func (w *handlerWorker) tree(root *node) {
 		obs := observe(w.mod, w.mod, m, &c.calls)
 		c.evals++
 		if s := diff(exp, obs); s != "" {
+			// wrong through the handler: if the directly parsed configuration behaves the same way, the tree
+			// semantics are at fault (reported under the part-1 signature), not the reconfiguration
+			if r, err, pan := safeParse(doc); pan == "" && err == nil && sameOutcome(obs, observe(r.RequestModifier(), r.ResponseModifier(), m, &c.calls)) {
+				reportEval(rootCopy, m, s, c)
+				break
+			}
 			rep.Violate("reconfig:after_accept:effect_mismatch", fmt.Sprintf("after accepting %s (previous config %s) message %s: expected trace=%v errors=%v, got trace=%v errors=%v %s",
 				doc, w.prevDoc, m, exp.Trace, exp.Errs, obs.Trace, obs.Errs, obs.Extra),
 				replay{Part: "reconfig", Config: string(doc), Previous: w.prevDoc, Msg: &m, Expected: &exp, Observed: &obs})
 			break
 		}
 	}
-	if g := w.get(); g != string(doc) {
+	activeRaw := w.getRaw()
+	if g := compact(activeRaw); g != string(doc) {
 		rep.Violate("reconfig:after_accept:config_mismatch", fmt.Sprintf("GET after accepting %s returns %s", doc, g), replay{Part: "reconfig", Config: string(doc), Previous: w.prevDoc})
 	}
 	red := msgsReduced[filterMask(root)]
-	exps := make([]outcome, len(red))
+	exps := make([]outcome, len(red)) // what the accepted configuration does (validated against the reference above)
 	for i, m := range red {
-		exps[i] = expect(rootCopy, m)
+		exps[i] = observe(w.mod, w.mod, m, &c.calls)
 	}
 	for _, rc := range rejectCases(root) { // renumbers root with base 100
 		c.rejects++
@@ -1246,7 +1289,7 @@ func (w *handlerWorker) tree(root *node) {
 		for i, m := range red {
 			obs := observe(w.mod, w.mod, m, &c.calls)
 			c.evals++
-			if s := diff(exps[i], obs); s != "" {
+			if !sameOutcome(exps[i], obs) {
 				rep.Violate("reconfig:after_reject:effect_changed", fmt.Sprintf("active config %s; after rejected (%d) POST of %s message %s gives trace=%v errors=%v, want trace=%v errors=%v %s",
 					doc, code, rc.doc, m, obs.Trace, obs.Errs, exps[i].Trace, exps[i].Errs, obs.Extra),
 					replay{Part: "reconfig", Config: string(rc.doc), Previous: string(doc), Msg: &m, Expected: &exps[i], Observed: &obs})
@@ -1254,7 +1297,8 @@ func (w *handlerWorker) tree(root *node) {
 				break
 			}
 		}
-		if g := w.get(); g != string(doc) {
+		if raw := w.getRaw(); !bytes.Equal(raw, activeRaw) {
+			g := compact(raw)
 			rep.Violate("reconfig:after_reject:config_changed", fmt.Sprintf("active config %s; after rejected POST of %s GET returns %s", doc, rc.doc, g),
 				replay{Part: "reconfig", Config: string(rc.doc), Previous: string(doc)})
 			bad = true
@@ -1406,8 +1450,19 @@ func (quiet) Errorf(string, ...interface{}) {}
 
 var stopProf = func() {}
 
+var phaseCost []string
+
+func cpuSeconds() float64 {
+	var ru syscall.Rusage
+	syscall.Getrusage(syscall.RUSAGE_SELF, &ru)
+	return float64(ru.Utime.Sec+ru.Stime.Sec) + float64(ru.Utime.Usec+ru.Stime.Usec)/1e6
+}
+
 func main() {
 	mlog.SetLogger(quiet{})
+	// the live heap is tiny and everything else is short-lived garbage: collect by memory limit, not by growth ratio
+	debug.SetGCPercent(-1)
+	debug.SetMemoryLimit(1 << 30)
 	if p := os.Getenv("VERIF_REPLAY"); p != "" {
 		doReplay(p)
 	}
@@ -1418,28 +1473,32 @@ func main() {
 		phases = []phase{
 			{"eval", alphaFull, []int{1, 2, 3, 4}},
 			{"eval", alphaMid, []int{5}},
-			{"eval", alphaSmall, []int{6}},
+			{"eval", alphaTiny, []int{6}},
 			{"prefix", alphaFull, []int{1, 2}},
 			{"handler", alphaFull, []int{1, 2, 3}},
-			{"handler", alphaMid, []int{4}},
+			{"handler", alphaSmall, []int{4}},
 		}
-		bounds = "evaluation: all trees with <=4 nodes over the full alphabet, all trees with exactly 5 nodes over the mid alphabet, exactly 6 nodes over the small alphabet (smaller sizes of the reduced alphabets are subsets of the full one); rejection/reconfiguration through the handler: full alphabet <=3 nodes, mid alphabet 4 nodes; all document prefixes for <=2 nodes"
+		bounds = "evaluation: all trees with <=4 nodes over the full alphabet, all trees with exactly 5 nodes over the mid alphabet, exactly 6 nodes over the tiny alphabet (each reduced alphabet is a subset of the next larger one, so their smaller sizes are already covered); rejection/reconfiguration through the handler: full alphabet <=3 nodes, small alphabet 4 nodes; all document prefixes for <=2 nodes"
 	} else {
 		phases = []phase{
 			{"eval", alphaFull, []int{1, 2, 3}},
 			{"eval", alphaMid, []int{4}},
+			{"eval", alphaSmall, []int{5}},
 			{"prefix", alphaFull, []int{1, 2}},
 			{"handler", alphaFull, []int{1, 2}},
 			{"handler", alphaMid, []int{3}},
 		}
-		bounds = "evaluation: all trees with <=3 nodes over the full alphabet and all trees with exactly 4 nodes over the mid alphabet; rejection/reconfiguration through the handler: full alphabet <=2 nodes, mid alphabet 3 nodes; all document prefixes for <=2 nodes"
+		bounds = "evaluation: all trees with <=3 nodes over the full alphabet, exactly 4 nodes over the mid alphabet and exactly 5 nodes over the small alphabet (each reduced alphabet is a subset of the next larger one); rejection/reconfiguration through the handler: full alphabet <=2 nodes, mid alphabet 3 nodes; all document prefixes for <=2 nodes"
 	}
 	total := &counters{behaviours: map[uint64]struct{}{}, perPhase: map[string]int64{}}
 	var mu sync.Mutex
 	genCounts := map[string]int64{}
 	for _, p := range phases {
+		t0, c0 := time.Now(), cpuSeconds()
 		runPhase(p, total, &mu, genCounts)
+		phaseCost = append(phaseCost, fmt.Sprintf("%s:%s:%v wall=%.1fs cpu=%.1fs", p.part, p.a.name, p.sizes, time.Since(t0).Seconds(), cpuSeconds()-c0))
 	}
+	rep.Coverage["phase_cost"] = phaseCost
 	if total.unclassified > 0 {
 		rep.Incomplete = fmt.Sprintf("more than %d failing trees: %d further failing trees were counted but not minimised/classified", maxMinimised, total.unclassified)
 	}
@@ -1465,7 +1524,7 @@ func main() {
 	rep.Coverage["rule"] = "every tree with exactly n nodes of the stated alphabet is generated (generator count cross-checked against a closed-form count), rendered to JSON, parsed by parse.FromJSON and run on both message kinds x every truth assignment of the filter conditions occurring in it; a tree is non-trivial when it has >=2 nodes, its expected outcome is non-empty for some message and differs between messages (kind or condition dependent)"
 	rep.Coverage["exhaustive"] = true
 	rep.Coverage["bounds"] = bounds
-	rep.Coverage["alphabets"] = []string{alphaFull.describe, alphaMid.describe, alphaSmall.describe}
+	rep.Coverage["alphabets"] = []string{alphaFull.describe, alphaMid.describe, alphaSmall.describe, alphaTiny.describe}
 	rep.Assumptions = []string{
 		"an absent scope means every message kind the node type implements; \"scope\":[] names no kind, so the node never acts",
 		"for a response, the url, querystring and method conditions refer to the request of the exchange, the header and cookie conditions to the response's own header / Set-Cookie",
